@@ -98,7 +98,6 @@ def io3(ctx, prog, cfg):
                        r"call %s\(&\{%s\}, dst\)" % (SR, front),
                        r"call <\[T\] as core::ops::index::IndexMut<I>>::index_mut\(dst, RangeFrom::RangeFrom\{start: %s\}\)" % r1,
                        r"call %s\(&\{%s\}, %s\)" % (SR, back, dst2),
-                       r"call CircularBuffer::len\(self\)",
                        r"call CircularBuffer::truncate_front\(self, Sub\(\(\*self\)\.size, Add\(%s, %s\)\)\)" % (r1, r2),
                        r"return Result::Ok\{0: Add\(%s, %s\)\}" % (r1, r2)], cfg,
                       "front -> dst, back -> dst[r1..], truncate_front(len - (r1 + r2))",
@@ -153,6 +152,6 @@ def io3(ctx, prog, cfg):
 
 def io4(ctx, prog, cfg):
     shapes.must_match(ctx, "IO4", prog, BR + "consume",
-                      [r"call CircularBuffer::len\(self\)", r"call core::cmp::min\(amt, \(\*self\)\.size\)",
+                      [r"call core::cmp::min\(amt, \(\*self\)\.size\)",
                        r"call CircularBuffer::drain\(self, RangeTo::RangeTo\{end: core::cmp::min\(amt, \(\*self\)\.size\)\}\)", r"return const"], cfg,
                       "drain(..min(amt, len))", "`consume` is not `self.drain(..min(amt, self.len()))`: it removes a different number of bytes or can hit the range panic")
